@@ -109,6 +109,8 @@ def seed_arg(s):
 
 def mk_seed(form, vals):
     vals = [int(v) for v in vals]
+    if form == 'dict' and not any(v >= 0 for v in vals):
+        form = 'list'          # get_values refuses an empty dict (np.min of an empty array): not a seed set
     if form == 'dict':
         return {'form': 'dict', 'items': [[i, v] for i, v in enumerate(vals) if v >= 0]}
     return {'form': form, 'vals': vals}
